@@ -1,11 +1,331 @@
-//! C02 (not built yet)
-use crate::report::{Disagreement, Run};
-use serde_json::Value;
+//! C02 Redo re-applies exactly what undo removed; undo/redo move a cursor; a new operation discards the tail.
 
-pub fn run(run: &mut Run) {
-    run.machinery_errors.push("C02: check not built yet".into());
+use crate::hist::{self, HistCfg};
+use crate::obs::{self, Obs, ObsOpts};
+use crate::ops::Op;
+use crate::props::c01::{classes, shape_tokens};
+use crate::report::{Disagreement, Run};
+use crate::seeds;
+use serde_json::{json, Value};
+
+pub struct Out {
+    pub ds: Vec<Disagreement>,
+    pub runs: u64,
+    pub steps: u64,
+    pub nontrivial: u64,
+    pub digests: Vec<u128>,
+    pub tainted: u64,
 }
 
-pub fn replay(_case: &Value) -> Vec<Disagreement> {
-    vec![]
+/// all words over {U,R} of length 1..=max
+fn ur_words(max: usize) -> Vec<Vec<bool>> {
+    let mut out = vec![];
+    for len in 1..=max {
+        for bits in 0..(1u32 << len) {
+            out.push((0..len).map(|i| bits >> i & 1 == 1).collect()); // true = redo
+        }
+    }
+    out
+}
+
+/// Replays the forward word, recording observations after each recorded entry. None if an op fails.
+fn forward(
+    seed: &'static str,
+    word: &[Op],
+    o: &ObsOpts,
+) -> Option<(ironcalc_base::UserModel<'static>, Vec<Obs>, Vec<usize>)> {
+    let mut um = seeds::load(seed);
+    let mut rec = vec![obs::observe(&um, o)];
+    let mut owner = vec![]; // index into word of the op that pushed entry k
+    for (i, op) in word.iter().enumerate() {
+        let d0 = um.verif_history_depths().0;
+        match crate::env::guarded(|| op.apply(&mut um)) {
+            Ok(Ok(())) => {}
+            _ => return None,
+        }
+        let d1 = um.verif_history_depths().0;
+        if d1 == d0 + 1 {
+            rec.push(obs::observe(&um, o));
+            owner.push(i);
+        } else if d1 != d0 {
+            return None; // judged by C01 (several entries)
+        } else {
+            // no entry recorded: the recorded observation of the current cursor position is the new state
+            *rec.last_mut().unwrap() = obs::observe(&um, o);
+        }
+    }
+    Some((um, rec, owner))
+}
+
+fn judge_ur(seed: &'static str, word: &[Op], ur: &[bool]) -> (Vec<Disagreement>, u64, bool, u128) {
+    let o = ObsOpts::default();
+    let mut ds = vec![];
+    let case = json!({"seed": seed, "ops": word, "ur": ur.iter().map(|b| if *b {"redo"} else {"undo"}).collect::<Vec<_>>()});
+    let (mut um, rec, owner) = match forward(seed, word, &o) {
+        Some(x) => x,
+        None => return (ds, 0, false, 0),
+    };
+    let n = rec.len() - 1;
+    let mut k = n; // cursor: entries applied
+    let mut steps = 0;
+    let mut did_redo = false;
+    for (si, is_redo) in ur.iter().enumerate() {
+        let expect_move = if *is_redo { k < n } else { k > 0 };
+        let r = crate::env::guarded(|| if *is_redo { um.redo() } else { um.undo() });
+        steps += 1;
+        match r {
+            Err(p) => {
+                ds.push(Disagreement {
+                    sig: format!("panic {} at={}", if *is_redo { "redo" } else { "undo" }, p.split(" @ ").last().unwrap_or("")),
+                    case: case.clone(),
+                    detail: format!("step {} panicked: {}", si, p),
+                });
+                return (ds, steps, did_redo, 0);
+            }
+            Ok(Err(e)) => {
+                let opk = if *is_redo && k < n { word[owner[k]].kind() } else if !*is_redo && k > 0 { word[owner[k - 1]].kind() } else { "none" };
+                ds.push(Disagreement {
+                    sig: format!("{}-error op={}", if *is_redo { "redo" } else { "undo" }, opk),
+                    case: case.clone(),
+                    detail: format!("step {} returned Err({})", si, e),
+                });
+                return (ds, steps, did_redo, 0);
+            }
+            Ok(Ok(())) => {}
+        }
+        if expect_move {
+            if *is_redo {
+                k += 1;
+            } else {
+                k -= 1;
+            }
+        }
+        let (u, rdepth) = um.verif_history_depths();
+        if u != k || rdepth != n - k || um.can_undo() != (k > 0) || um.can_redo() != (k < n) {
+            ds.push(Disagreement {
+                sig: format!("cursor-mismatch after={}", if *is_redo { "redo" } else { "undo" }),
+                case: case.clone(),
+                detail: format!(
+                    "after step {}: undo depth {} redo depth {} can_undo {} can_redo {}; cursor model says {} / {}",
+                    si, u, rdepth, um.can_undo(), um.can_redo(), k, n - k
+                ),
+            });
+            return (ds, steps, did_redo, 0);
+        }
+        if *is_redo && expect_move {
+            did_redo = true;
+            let s = obs::observe(&um, &o);
+            if s != rec[k] {
+                let df = obs::diff(&rec[k], &s);
+                let undone_before = ur[..si].iter().filter(|b| !**b).count();
+                let _ = undone_before;
+                ds.push(Disagreement {
+                    sig: format!(
+                        "redo op={} fields={} shape={}",
+                        word[owner[k - 1]].kind(),
+                        classes(&df),
+                        shape_tokens(&df)
+                    ),
+                    case: case.clone(),
+                    detail: format!(
+                        "after redoing {:?} the workbook differs from the state recorded when it originally ran:\n{}",
+                        word[owner[k - 1]],
+                        obs::diff_text(&df, 8)
+                    ),
+                });
+                return (ds, steps, did_redo, 0);
+            }
+        }
+        if !*is_redo && expect_move {
+            // An undo that does not restore the recorded state is C01's finding; what redo does from a
+            // damaged state is not attributable to redo, so this execution stops being judged here.
+            let s = obs::observe(&um, &o);
+            if s != rec[k] {
+                return (ds, steps, did_redo, 1);
+            }
+        }
+        if !expect_move {
+            // a no-op undo/redo must not change the observation either
+            let s = obs::observe(&um, &o);
+            // compare against what we last knew at this cursor only when nothing was damaged before
+            if k == n && s != rec[n] && ur[..si].iter().all(|b| *b) {
+                let df = obs::diff(&rec[n], &s);
+                ds.push(Disagreement {
+                    sig: format!("noop-redo-changed fields={}", classes(&df)),
+                    case: case.clone(),
+                    detail: format!("redo with an empty redo list changed the workbook:\n{}", obs::diff_text(&df, 6)),
+                });
+                return (ds, steps, did_redo, 0);
+            }
+        }
+    }
+    let fin = obs::digest(&obs::observe(&um, &o));
+    (ds, steps, did_redo, fin)
+}
+
+/// ops^a · undo^k · op: the redo list must be discarded and redo be a no-op
+fn judge_new_op(seed: &'static str, word: &[Op], k: usize, op: &Op) -> (Vec<Disagreement>, u64, bool) {
+    let o = ObsOpts::default();
+    let mut ds = vec![];
+    let case = json!({"seed": seed, "ops": word, "undos": k, "then": op});
+    let (mut um, rec, _) = match forward(seed, word, &o) {
+        Some(x) => x,
+        None => return (ds, 0, false),
+    };
+    let n = rec.len() - 1;
+    if k > n {
+        return (ds, 0, false);
+    }
+    for _ in 0..k {
+        if !matches!(crate::env::guarded(|| um.undo()), Ok(Ok(()))) {
+            return (ds, 0, false);
+        }
+    }
+    let d0 = um.verif_history_depths();
+    match crate::env::guarded(|| op.apply(&mut um)) {
+        Ok(Ok(())) => {}
+        _ => return (ds, 0, false),
+    }
+    let d1 = um.verif_history_depths();
+    if d1.0 == d0.0 {
+        // recorded nothing: the redo list legitimately stays
+        return (ds, (k + 1) as u64, false);
+    }
+    if d1.1 != 0 || um.can_redo() {
+        ds.push(Disagreement {
+            sig: format!("redo-list-kept-after-new-op op={}", op.kind()),
+            case: case.clone(),
+            detail: format!("after {} undo(s) and the new operation {:?} the redo depth is {} (can_redo {})", k, op, d1.1, um.can_redo()),
+        });
+        return (ds, (k + 1) as u64, true);
+    }
+    let before = obs::observe(&um, &o);
+    let r = crate::env::guarded(|| um.redo());
+    let after = obs::observe(&um, &o);
+    if !matches!(r, Ok(Ok(()))) || before != after || um.verif_history_depths() != d1 {
+        let df = obs::diff(&before, &after);
+        ds.push(Disagreement {
+            sig: format!("redo-after-new-op-not-noop op={}", op.kind()),
+            case,
+            detail: format!("redo after a new operation returned {:?} and changed:\n{}", r, obs::diff_text(&df, 6)),
+        });
+    }
+    (ds, (k + 2) as u64, true)
+}
+
+fn judge_word(seed: &'static str, word: &[Op], ur_max: usize, new_ops: &[Op]) -> Option<Out> {
+    // cut early if the forward word fails
+    let o = ObsOpts::default();
+    let (_, rec, _) = forward(seed, word, &o)?;
+    let n = rec.len() - 1;
+    let mut out = Out {
+        ds: vec![],
+        runs: 0,
+        steps: 0,
+        nontrivial: 0,
+        digests: vec![],
+        tainted: 0,
+    };
+    if n > 0 {
+        for ur in ur_words(ur_max.min(2 * n + 1)) {
+            let (ds, steps, did_redo, fin) = judge_ur(seed, word, &ur);
+            out.runs += 1;
+            out.steps += steps + word.len() as u64;
+            if did_redo {
+                out.nontrivial += 1;
+            }
+            if fin == 1 {
+                out.tainted += 1;
+            } else if fin != 0 {
+                out.digests.push(fin);
+            }
+            out.ds.extend(ds);
+        }
+        for k in 1..=n {
+            for op in new_ops {
+                let (ds, steps, nt) = judge_new_op(seed, word, k, op);
+                out.runs += 1;
+                out.steps += steps + word.len() as u64;
+                if nt {
+                    out.nontrivial += 1;
+                }
+                out.ds.extend(ds);
+            }
+        }
+    }
+    Some(out)
+}
+
+pub fn run(run: &mut Run) {
+    let thorough = run.tier.thorough();
+    let full = seeds::alphabet_full();
+    let core = seeds::alphabet_core();
+    let all_seeds: Vec<&'static str> = seeds::SEEDS.to_vec();
+    // (cfg, len, ur_max, new-op alphabet)
+    let small_new: Vec<Op> = vec![core[0].clone(), core[18].clone(), core[22].clone(), core[26].clone()];
+    let mut plans: Vec<(HistCfg, usize, usize, Vec<Op>, &str)> = vec![
+        (HistCfg { seeds: all_seeds.clone(), alphabet: full.clone(), depth: 1 }, 1, 3, core.clone(), "full"),
+        (HistCfg { seeds: vec!["basic"], alphabet: core.clone(), depth: 2 }, 2, if thorough { 4 } else { 3 }, small_new.clone(), "core"),
+    ];
+    if thorough {
+        plans.push((HistCfg { seeds: all_seeds.clone(), alphabet: full.clone(), depth: 2 }, 2, 4, small_new.clone(), "full"));
+        plans.push((HistCfg { seeds: vec!["basic"], alphabet: core.clone(), depth: 3 }, 3, 4, vec![core[0].clone()], "core"));
+    }
+    let mut outcomes = std::collections::HashSet::new();
+    let mut bounds = vec![];
+    let mut tainted = 0u64;
+    for (cfg, len, ur_max, new_ops, name) in &plans {
+        let j = |seed: &'static str, word: &[Op]| judge_word(seed, word, *ur_max, new_ops);
+        let (outs, st, errs) = hist::explore(cfg, *len, &j);
+        for e in errs {
+            run.machinery_errors.push(e);
+        }
+        let mut runs = 0;
+        for w in outs {
+            runs += w.runs;
+            run.evaluations += w.runs;
+            run.traces += w.runs;
+            run.transitions += w.steps;
+            run.states += w.steps;
+            run.nontrivial += w.nontrivial;
+            tainted += w.tainted;
+            for d in w.digests {
+                outcomes.insert(d);
+            }
+            run.add_all(w.ds);
+        }
+        bounds.push(json!({"alphabet": name, "alphabet_size": cfg.alphabet.len(), "forward_length": len, "undo_redo_words_up_to": ur_max,
+            "new_ops_after_partial_undo": new_ops.len(), "seeds": cfg.seeds, "forward_histories_ok": st.words, "executions": runs}));
+        if run.elapsed() > if thorough { 3000.0 } else { 100.0 } {
+            run.cap_hit = Some(format!("wall clock after plan {} len {}", name, len));
+            break;
+        }
+    }
+    run.distinct_outcomes = outcomes.len() as u64;
+    run.extra.insert("executions_not_judged_after_a_damaging_undo".into(), json!(tainted));
+    run.bound = json!({"plans": bounds, "hash_seed": crate::env::hash_seed()});
+    run.rule = "every forward history of the stated length (all operations Ok) followed by EVERY word over {undo, redo} up to the stated length, and every history ops·undo^k·op; each executed on the real UserModel against a cursor model (list of recorded observations + index). non-trivial = executions in which at least one redo actually re-applied an entry (or a new operation discarded a non-empty redo list)".into();
+    run.sample(json!({"seed":"basic","ops":[core[0]],"ur":["undo","redo"]}));
+    run.sample(json!({"seed":"basic","ops":[core[22], core[7]],"ur":["undo","undo","redo","undo"]}));
+    run.sample(json!({"seed":"empty","ops":[full[60]],"undos":1,"then":core[0]}));
+    run.assume("redo observations are compared with the observation recorded when the operation originally ran, so defects of undo (C01) are not re-reported unless they make redo diverge");
+    run.assume("hash-map iteration order fixed by VERIF_HASH_SEED for this run");
+}
+
+pub fn replay(case: &Value) -> Vec<Disagreement> {
+    let seed = hist::seed_name(case["seed"].as_str().unwrap_or("empty"));
+    let ops: Vec<Op> = serde_json::from_value(case["ops"].clone()).unwrap_or_default();
+    if case.get("ur").is_some() {
+        let ur: Vec<bool> = case["ur"]
+            .as_array()
+            .map(|a| a.iter().map(|x| x == "redo").collect())
+            .unwrap_or_default();
+        judge_ur(seed, &ops, &ur).0
+    } else {
+        let k = case["undos"].as_u64().unwrap_or(0) as usize;
+        match serde_json::from_value::<Op>(case["then"].clone()) {
+            Ok(op) => judge_new_op(seed, &ops, k, &op).0,
+            Err(_) => vec![],
+        }
+    }
 }
